@@ -30,9 +30,11 @@ func init() {
 			{ID: "R03.5", Template: "T-TAINT", Text: "pc advances only by constants and decoder-returned sizes", Min: 2},
 			{ID: "R03.6", Template: "T-MUSTPASS", Text: "every function body reaches the validator", Min: 1},
 			{ID: "R03.7", Template: "T-CONSULT", Text: "if-without-else: parameter and result types are compared", Min: 1},
+			{ID: "R03.8", Template: "T-CONSULT", Text: "decoder reads cannot be empty reads at the end of the input (genuine defect found and fixed: trailing custom section with an empty payload)", Min: 2},
 		},
 		Run: runC03,
 		Controls: []core.Control{
+			{Name: "custom-section-unguarded-read", File: "internal/wasm/binary/custom.go", Old: "\tif len(buf) > 0 { // bytes.Reader.Read returns io.EOF at the end of the input even for an empty buffer.\n\t\t_, err = r.Read(buf)\n\t}\n", New: "\t_, err = r.Read(buf)\n", Rule: "R03.8", Substr: "decodeCustomSection"},
 			{Name: "wazevo-arm-removed", File: "internal/engine/wazevo/frontend/lower.go", Old: "\tcase wasm.OpcodeNop:", New: "\tcase 0x06: // was nop", Rule: "R03.1", Substr: "wazevo"},
 			{Name: "interp-vec-arm-removed", File: "internal/engine/interpreter/compiler.go", Old: "\t\tcase wasm.OpcodeVecV128Not:", New: "\t\tcase 0x9a: // disabled", Rule: "R03.1", Substr: "interpreter"},
 			{Name: "mutable-global-accepted", File: "internal/wasm/module.go", Old: "\t\tif globals[id].Mutable {\n\t\t\treturn fmt.Errorf(\"global.get in a constant expression must refer to an immutable global\")\n\t\t}\n", New: "", Rule: "R03.2", Substr: "validateConstExpression"},
@@ -52,6 +54,7 @@ func runC03(c *core.Ctx) {
 	checkPcAdvance(c)
 	checkEveryFunctionValidated(c)
 	checkIfWithoutElse(c)
+	checkEmptyReads(c)
 }
 
 // ---- R03.1 / R01.1
@@ -514,3 +517,77 @@ func checkIfWithoutElse(c *core.Ctx) {
 
 var _ = packages.NeedName
 var _ = sort.Strings
+
+// ---- R03.8 variable-length reads do not mistake an empty read at the end of the input for an error ----
+
+func checkEmptyReads(c *core.Ctx) {
+	p := c.Pkg("internal/wasm/binary")
+	if p == nil {
+		return
+	}
+	info := p.TypesInfo
+	n := 0
+	core.AllFuncDecls(p, func(fd *ast.FuncDecl) {
+		var stack []ast.Node
+		ast.Inspect(fd.Body, func(x ast.Node) bool {
+			if x == nil {
+				stack = stack[:len(stack)-1]
+				return true
+			}
+			stack = append(stack, x)
+			call, ok := x.(*ast.CallExpr)
+			if !ok || len(call.Args) != 1 {
+				return true
+			}
+			se, ok := call.Fun.(*ast.SelectorExpr)
+			if !ok || se.Sel.Name != "Read" {
+				return true
+			}
+			rt := info.Types[se.X].Type
+			if rt == nil || !(strings.HasSuffix(rt.String(), "bytes.Reader") || strings.HasSuffix(rt.String(), "io.Reader")) {
+				return true
+			}
+			n++
+			arg := ast.Unparen(call.Args[0])
+			okLen := false
+			why := ""
+			// make([]byte, K) with K a non-zero constant
+			if mk, ok := arg.(*ast.CallExpr); ok && core.IsBuiltin(info, mk, "make") && len(mk.Args) >= 2 {
+				if v, ok := core.ConstVal(info, mk.Args[1]); ok && v > 0 {
+					okLen = true
+				}
+			}
+			// a fixed-size array slice b[:] / b[0:K]
+			if sl, ok := arg.(*ast.SliceExpr); ok {
+				if at, ok := info.Types[sl.X].Type.Underlying().(*types.Array); ok && at.Len() > 0 && sl.High == nil {
+					okLen = true
+				}
+				if ptr, ok := info.Types[sl.X].Type.Underlying().(*types.Pointer); ok {
+					if at, ok := ptr.Elem().Underlying().(*types.Array); ok && at.Len() > 0 && sl.High == nil {
+						okLen = true
+					}
+				}
+			}
+			// guarded by `len(buf) > 0` / `!= 0` (or `limit > 0` on the variable the buffer was sized with)
+			if !okLen {
+				txt := core.ExprStr(arg)
+				for i := len(stack) - 1; i >= 0; i-- {
+					if is, ok := stack[i].(*ast.IfStmt); ok {
+						cond := core.ExprStr(is.Cond)
+						if strings.Contains(cond, "len("+txt+") > 0") || strings.Contains(cond, "len("+txt+") != 0") || strings.Contains(cond, "0 < len("+txt+")") {
+							okLen = true
+						}
+					}
+				}
+				why = "`" + core.ExprStr(call) + "`: the buffer's length comes from the input and may be 0"
+			}
+			c.Check(okLen, "R03.8", fmt.Sprintf("read #%d in %s cannot be an empty read at the end of the input", n, core.FuncName(p, fd)), call.Pos(),
+				"constant non-zero buffer, or guarded by a length test (io.ReadFull is the other accepted idiom)",
+				why+": (*bytes.Reader).Read returns io.EOF at the end of the input even for an empty buffer, so a valid module whose last section has an empty payload is rejected")
+			return true
+		})
+	})
+	if n == 0 {
+		c.Discharge("R03.8", "the decoder uses io.ReadFull only", 0, "no direct Read calls")
+	}
+}
